@@ -314,7 +314,7 @@ TABLE = {
     (D + 'push_clip', 'index', 'call:last.0.mask.0'): (1, 'else', 'previous masks are full-surface too (R05.5)'),
     ('geom::chop_quad_at', 'panic', 'panic'): (1, 'else', 'debug_assert!(0 < t < 1): called on the true edge of valid_unit_divide (R08.2)'),
     ('geom::interp', 'panic', 'panic'): (1, 'range', 'debug_assert!(0 <= t <= 1)'),
-    ('geom::valid_unit_divide', 'panic', 'panic'): (1, 'range', 'debug_assert!(0 <= r < 1) after numer < denom'),
+    ('geom::valid_unit_divide', 'panic', 'panic'): (1, 'guard', 'debug_assert!(0 <= r < 1): r = numer / denom is computed only after numer >= denom (equality included) returned false', 'unit_divide'),
     ('rasterizer::compute_curve_steps', 'panic', 'panic'): (1, 'range', 'assert!(shift >= 0)'),
     ('rasterizer::Rasterizer::reset', 'panic', 'assert_failed'): (6, 'range', 'debug_assert_eq!s on the early-out: the state is clean when bounds_bottom < bounds_top'),
     ('rasterizer::Rasterizer::reset', 'slice', 'self.edge_starts[Range]'): (1, 'else', 'start/end clamped to [0, height] (R10.2)'),
@@ -433,7 +433,30 @@ def g_add_edge_slope(ctx, b, hs):
     return bool(e) and all(cut_by_edges(an.cfg, h[2], e) for h in hs)
 
 
-GUARDS = {'super_ends': g_super_ends, 'super_inner': g_super_inner, 'storage_never_none': g_storage_never_none,
+def g_unit_divide(ctx, b, hs):
+    """the ratio asserted to lie in [0, 1) is n / d and the assertion is reached only when n < d was established
+    strictly (`n >= d` returned false): with `n > d` the equal case — reachable through rounding — gives r == 1"""
+    for h in hs:
+        fs = shared.facts_at(ctx, b, h[2])
+        divs = set()
+        for op, a, b2, si in fs:
+            for t in (a, b2):
+                if t is None:
+                    continue
+                for x in subterms(t):
+                    if x[0] == 'bin' and x[1] == 'Div':
+                        divs.add((nosite(x[2]), nosite(x[3])))
+        if len(divs) != 1:
+            return False
+        n, d = list(divs)[0]
+        strict = any((op in ('!Ge', 'Lt') and nosite(a) == n and nosite(b2) == d) or (op in ('!Le', 'Gt') and nosite(a) == d and nosite(b2) == n) for op, a, b2, si in fs if b2 is not None)
+        nonzero = any(op == '!Eq' and nosite(a) == d and const_val(b2) == 0 for op, a, b2, si in fs if b2 is not None)
+        if not (strict and nonzero):
+            return False
+    return True
+
+
+GUARDS = {'unit_divide': g_unit_divide, 'super_ends': g_super_ends, 'super_inner': g_super_inner, 'storage_never_none': g_storage_never_none,
           'dash_array_nonempty': g_dash_array_nonempty, 'contains_point_flat': g_contains_point_flat,
           'add_edge_row': g_add_edge_row, 'add_edge_slope': g_add_edge_slope}
 
